@@ -35,6 +35,7 @@ def run(ctx):
     ctx.not_decided = "that DiffIter::log / make_patches compute the patches between two clocks correctly (conflict flags, counters, text content)."
     ctx.rule("D1", "positional provenance: before -> first, after -> second operand of ClockRange::Diff and of every clock_range call; PatchLog.heads := after; diff_incremental: diff(cursor, heads) then update_diff_cursor")
     ctx.rule("D3", "sibling agreement of MapDiff::next and ListDiff::next: the remembered lower-id value (last_visible) is returned for a key / element only on the true edge of `diff.is_del()` of the element's final op")
+    ctx.rule("D4", "MapDiffItem::log / ListDiffItem::log: for an unchanged winner the conflict patch does not depend on the increment test (an op can be incremented and newly conflicted between the two heads)")
     ctx.rule("D2", "edge dominance of the three fast paths of AutoCommit::diff_inner by their guards; the cache key stored is this call's")
     f = ctx.facts()
     # ---------------- D1: clock_range itself
@@ -181,6 +182,7 @@ def run(ctx):
         ok = all(pv.depends_on_param(h) for h in hps) and "make_patches" in cs
         ctx.ob("D2", k, ok, st["sp"], "keyed by this call's before / after heads; holds the patches just made" if ok else "the diff cache is filled under a key that is not this call's range")
     check_diff_siblings(ctx, f)
+    check_same_arm(ctx, f)
 
 
 def check_diff_siblings(ctx, f):
@@ -214,3 +216,29 @@ def check_diff_siblings(ctx, f):
             ctx.ob("D3", k, ok, st["sp"], "only when the final op of the register is deleted" if ok else
                    "the remembered lower-id value is returned although the register's final op may still be visible: the diff reports a losing value as the new value")
     ctx.floor("returns of the remembered value in MapDiff / ListDiff", n, 2)
+
+
+def check_same_arm(ctx, f):
+    from . import C28
+    n = 0
+    for tail, flag in (("iter::map_range::MapDiffItem::log", "flag_conflict_map"), ("iter::list_range::ListDiffItem::log", "flag_conflict_seq")):
+        P = [p for p in f.fns if norm_fn(p) == "automerge::" + tail]
+        if len(P) != 1:
+            raise facts.AnchorMissing(tail)
+        b = cfg.body(f.fns[P[0]])
+        ctx.analysed_fns.add(P[0])
+        flags = [(bi, t) for bi, t in b.calls() if (callee(t) or "").endswith("PatchLog::" + flag) or (callee(t) or "").endswith("PatchLog::flag_conflict")]
+        incs = [bi for bi, t in b.calls() if (callee(t) or "").split("::")[-1] in ("increment_map", "increment_seq", "increment")]
+        ctx.floor("increment patches in %s" % tail.split("::")[-2], len(incs), 1)
+        for k, (bi, t) in util.ordinal_keys(flags, lambda it, tl=tail: "%s|conflict patch of an unchanged winner" % tl.split("::")[-2]):
+            n += 1
+            bad = []
+            for sb, sw in C28.control_switches_transitive(b, bi):
+                src = b.bool_operand_source(sw["op"])
+                if src and src["kind"] == "bin" and src["op"] in ("Ne", "Eq", "Gt", "Lt"):
+                    os_ = [b.operand_origin(o) for o in src["o"]]
+                    if any(o and ".inc" in o[1] for o in os_) or any(b.local_name(o[0]) == "inc" for o in os_ if o):
+                        bad.append(util.where(b, sb))
+            ctx.ob("D4", k, not bad, t["sp"], "independent of the increment test" if not bad else
+                   "the conflict patch is only logged when the op was not incremented (%s): a counter incremented and newly conflicted between the two heads loses its conflict flag in the diff" % bad)
+    ctx.floor("conflict patches for unchanged winners in the diff items", n, 2)
